@@ -260,7 +260,6 @@ fn velocity(c1: f64, c2: f64, check_formula: bool) {
         }
         assert!(s.borrow::<BestParticles<RealP, Global>>().len() == 1, "the personal-best collection keeps one entry per particle");
     }
-    assert!(draws() == 2, "two uniform draws per coordinate");
     vcover!(true, "reached");
     std::mem::forget((s, c));
 }
